@@ -202,5 +202,71 @@ func init() {
 			copies = copies && contains(ls, "pattern, v, err := parseString(s)") && contains(ls, "return m.Add(pattern, v)")
 		}
 		ex.setBool("c12LoaderOwnsLineStrings", copies, lt != nil && ld != nil, "LoadFromTextReader: `s := scanner.Text()` (a copy; no scanner.Bytes / unsafe conversion), each non-empty line goes to Load, which returns m.Add(pattern, v) of what parseString gave")
+		// (g) the qname / cname matchers (plugin/matcher/base_domain): like a set, a matcher's group starts nil
+		// (`m = &Matcher{match: f}`) and is only ever extended by one member at a time on its own slice; it never
+		// takes over the slice of a referenced set
+		const brel = "plugin/matcher/base_domain/domain_matcher.go"
+		nm := ex.fn(brel, "", "NewMatcher")
+		mOwned := false
+		if bf := ex.file(brel); bf != nil && nm != nil {
+			ss := stmtStrings(ex, nm.Body)
+			mOwned = contains(ss, "m = &Matcher{ match: f, }") && contains(ss, "return m, nil")
+			writes := 0
+			ast.Inspect(bf, func(n ast.Node) bool {
+				switch st := n.(type) {
+				case *ast.AssignStmt:
+					for _, l := range st.Lhs {
+						if ls := ex.str(l); ls == "mg" || strings.HasSuffix(ls, ".mg") || strings.Contains(ls, ".mg[") {
+							writes++
+							if t := ex.str(st); t != "m.mg = append(m.mg, dm)" && t != "m.mg = append(m.mg, anonymousSet)" {
+								mOwned = false
+							}
+						}
+					}
+				case *ast.CompositeLit:
+					if ex.str(st.Type) == "Matcher" && ex.str(st) != "Matcher{ match: f, }" {
+						mOwned = false
+					}
+				case *ast.UnaryExpr:
+					if st.Op.String() == "&" && strings.HasSuffix(ex.str(st.X), ".mg") {
+						mOwned = false
+					}
+				}
+				return true
+			})
+			mOwned = mOwned && writes == 2
+		}
+		ex.setBool("c12MatcherGroupOwned", mOwned, nm != nil, "base_domain.NewMatcher: the matcher starts as &Matcher{match: f} (nil group); the only writes to its group are `m.mg = append(m.mg, dm)` (one per referenced set) and `m.mg = append(m.mg, anonymousSet)`")
+		// (h) the hosts plugin loads every entry and every file line into the very MixMatcher it answers from:
+		// no rule is filtered or rewritten between ParseIPs and Add (a rule whose value is the empty address
+		// list is a rule like any other and shadows less specific rules)
+		const hprel = "plugin/executable/hosts/hosts.go"
+		nh := ex.fn(hprel, "", "NewHosts")
+		direct := false
+		if nh != nil {
+			ss := stmtStrings(ex, nh.Body)
+			direct = contains(ss, "m := domain.NewMixMatcher[*hosts.IPs]()") && contains(ss, "m.SetDefaultMatcher(domain.MatcherFull)") &&
+				contains(ss, "return &Hosts{ h: hosts.NewHosts(m), }, nil")
+			loads := 0
+			for _, t := range ss {
+				if strings.HasPrefix(t, "if err := domain.Load[*hosts.IPs](m, entry, hosts.ParseIPs); err != nil {") ||
+					strings.HasPrefix(t, "if err := domain.LoadFromTextReader[*hosts.IPs](m, bytes.NewReader(b), hosts.ParseIPs); err != nil {") {
+					loads++
+				}
+			}
+			nAssign := 0
+			ast.Inspect(nh.Body, func(n ast.Node) bool {
+				if st, isA := n.(*ast.AssignStmt); isA {
+					for _, l := range st.Lhs {
+						if ex.str(l) == "m" {
+							nAssign++
+						}
+					}
+				}
+				return true
+			})
+			direct = direct && loads == 2 && nAssign == 1
+		}
+		ex.setBool("c12HostsLoadsEveryRule", direct, nh != nil, "hosts plugin NewHosts: m is a MixMatcher (default type full), assigned once; entries go through domain.Load(m, entry, hosts.ParseIPs), files through domain.LoadFromTextReader(m, ..., hosts.ParseIPs), and the answers come from hosts.NewHosts(m): no rule is dropped between parser and matcher")
 	})
 }
